@@ -1,0 +1,15 @@
+//go:build !verif
+
+package gbn
+
+// vtrace is the verification trace hook. Without the verif build tag it is an
+// empty function that the compiler removes.
+func vtrace(src any, ev string, kv ...int) {}
+
+// b2i converts a bool to an int for vtrace arguments.
+func b2i(b bool) int {
+	if b {
+		return 1
+	}
+	return 0
+}
